@@ -152,3 +152,41 @@ Qed.
 
 Lemma exec_passes_descriptor_3 : exec_passes_fd = 3%nat.
 Proof. vm_compute. reflexivity. Qed.
+
+(* ---- the listening descriptor's mode ----
+   An activated service inherits its listening socket from whoever created it: blocking, or with O_NONBLOCK set
+   (systemd's NonBlocking=yes, a multiplexing parent). `forces` = listen() switches the descriptor to blocking mode
+   before its accept loop (regenerated: listen_forces_blocking); accept(timeout) waits in select only when the
+   timeout is non-zero (regenerated: accept_selects_only_with_timeout). One round of the accept loop: *)
+Inductive fdmode := FBlocking | FNonBlocking.
+Inductive accept_result := AAccepted | ATimeout | AWaits | AWouldBlock.
+
+Definition effective_mode (forces : bool) (inherited : fdmode) : fdmode := if forces then FBlocking else inherited.
+
+(* pending: a client is already queued when accept is called *)
+Definition accept_round (selects_only_with_timeout : bool) (m : fdmode) (timeout : N) (pending : bool) : accept_result :=
+  if pending then AAccepted
+  else if (if selects_only_with_timeout then negb (timeout =? 0) else true) then ATimeout
+  else match m with FBlocking => AWaits | FNonBlocking => AWouldBlock end.
+
+(* EAGAIN from accept() is an Io error that ends listen(): with the descriptor forced to blocking mode it never occurs,
+   whatever mode was inherited, whatever the timeout, whether or not a client is waiting *)
+Theorem forced_blocking_never_would_block : forall sel inherited timeout pending,
+  accept_round sel (effective_mode true inherited) timeout pending <> AWouldBlock.
+Proof.
+  intros sel inherited timeout pending. unfold accept_round, effective_mode.
+  destruct pending; [discriminate|]. destruct (if sel then negb (timeout =? 0) else true); discriminate.
+Qed.
+
+(* ... and every transport then behaves alike: the round's result does not depend on the inherited mode *)
+Theorem forced_blocking_mode_irrelevant : forall sel m1 m2 timeout pending,
+  accept_round sel (effective_mode true m1) timeout pending = accept_round sel (effective_mode true m2) timeout pending.
+Proof. reflexivity. Qed.
+
+(* without it: an inherited O_NONBLOCK socket, no idle timeout, no client waiting yet - the service dies at once *)
+Example inherited_nonblocking_kills_the_service :
+  accept_round true (effective_mode false FNonBlocking) 0 false = AWouldBlock.
+Proof. reflexivity. Qed.
+
+Lemma src_listen_forces_blocking : listen_forces_blocking = true /\ accept_selects_only_with_timeout = true.
+Proof. vm_compute. split; reflexivity. Qed.
